@@ -13,7 +13,7 @@ use crate::script::*;
 use crate::setops::{model_covering_difference, model_difference, model_intersection, model_union, SItem};
 use crate::truth::{cover, truth_of, under, Ent, Truth};
 use crate::val::{SimVal, Val};
-use crate::views::{navigate, navigate_mut, view_ents};
+use crate::views::{navigate_mut_region, navigate_region, view_ents};
 use prefix_trie::map::IterMut;
 use prefix_trie::trieview::UnionItem;
 use prefix_trie::{AsView, AsViewMut, PrefixMap, PrefixSet, TrieView, TrieViewMut};
@@ -103,14 +103,20 @@ struct Live<'a> {
 }
 
 enum AnyView<'a, P: SimPrefix> {
-    M(TrieView<'a, P, Val>),
-    S(TrieView<'a, P, ()>),
+    M(TrieView<'a, P, Val>, Key),
+    S(TrieView<'a, P, ()>, Key),
 }
 
 fn any_view<'a, P: SimPrefix>(w: &'a World<P>, o: Opnd, nav: &[Nav]) -> AnyView<'a, P> {
     match w.opnd(o) {
-        Opnd::M(i) => AnyView::M(navigate(w.maps[i as usize].real.view(), nav)),
-        Opnd::S(i) => AnyView::S(navigate(w.sets[i as usize].real.view(), nav)),
+        Opnd::M(i) => {
+            let (v, r) = navigate_region(w.maps[i as usize].real.view(), nav);
+            AnyView::M(v, r)
+        }
+        Opnd::S(i) => {
+            let (v, r) = navigate_region(w.sets[i as usize].real.view(), nav);
+            AnyView::S(v, r)
+        }
     }
 }
 
@@ -170,30 +176,30 @@ pub fn read_session<P: SimPrefix>(w: &mut World<P>, ctx: &mut Ctx, handles: &[HS
                 HSpec::ViewIter(o, nav) | HSpec::ViewKeys(o, nav) | HSpec::ViewValues(o, nav) => {
                     let t = &w.truths[w.cidx(*o)];
                     match (any_view(w, *o, nav), h) {
-                        (AnyView::M(v), HSpec::ViewIter(..)) => {
-                            let exp = under(&t.ents, v.prefix().raw().key());
+                        (AnyView::M(v, region), HSpec::ViewIter(..)) => {
+                            let exp = under(&t.ents, region);
                             mk(Box::new(Cl(v.iter(), it_kv::<P, Val>)), exp.into_iter().map(e_kv).collect(), "C11", "C11", format!("view({}).iter", v.prefix().raw()))
                         }
-                        (AnyView::M(v), HSpec::ViewKeys(..)) => {
-                            let exp = under(&t.ents, v.prefix().raw().key());
+                        (AnyView::M(v, region), HSpec::ViewKeys(..)) => {
+                            let exp = under(&t.ents, region);
                             mk(Box::new(Cl(v.keys(), it_k::<P>)), exp.into_iter().map(e_k).collect(), "C11", "C11", format!("view({}).keys", v.prefix().raw()))
                         }
-                        (AnyView::M(v), _) => {
-                            let exp = under(&t.ents, v.prefix().raw().key());
+                        (AnyView::M(v, region), _) => {
+                            let exp = under(&t.ents, region);
                             mk(Box::new(Cl(v.values(), it_v::<Val>)), exp.into_iter().map(e_v).collect(), "C11", "C11", format!("view({}).values", v.prefix().raw()))
                         }
-                        (AnyView::S(v), _) => {
-                            let exp = under(&t.ents, v.prefix().raw().key());
+                        (AnyView::S(v, region), _) => {
+                            let exp = under(&t.ents, region);
                             mk(Box::new(Cl(v.keys(), it_k::<P>)), exp.into_iter().map(e_k).collect(), "C11", "C11", format!("set.view({}).keys", v.prefix().raw()))
                         }
                     }
                 }
                 HSpec::SetOp { op, a, na, b, nb } => {
                     let (h, exp, p, ap, name) = match (any_view(w, *a, na), any_view(w, *b, nb)) {
-                        (AnyView::M(x), AnyView::M(y)) => setop_handle(*op, &x, &y, cap_all),
-                        (AnyView::M(x), AnyView::S(y)) => setop_handle(*op, &x, &y, cap_all),
-                        (AnyView::S(x), AnyView::M(y)) => setop_handle(*op, &x, &y, cap_all),
-                        (AnyView::S(x), AnyView::S(y)) => setop_handle(*op, &x, &y, cap_all),
+                        (AnyView::M(x, _), AnyView::M(y, _)) => setop_handle(*op, &x, &y, cap_all),
+                        (AnyView::M(x, _), AnyView::S(y, _)) => setop_handle(*op, &x, &y, cap_all),
+                        (AnyView::S(x, _), AnyView::M(y, _)) => setop_handle(*op, &x, &y, cap_all),
+                        (AnyView::S(x, _), AnyView::S(y, _)) => setop_handle(*op, &x, &y, cap_all),
                     };
                     mk(h, exp, p, ap, name.into())
                 }
@@ -342,6 +348,10 @@ struct LiveIt<'a, P, T> {
 
 struct Sess<'a, P: SimPrefix, T: WVal> {
     pool: Vec<TrieViewMut<'a, P, T>>,
+    /// the region of the key space each pool view owns (parallel to `pool`). Usually the view's
+    /// prefix; for a virtual view obtained by `find(q)` with q covering the searched view it stays
+    /// the region of that view (the virtual prefix q lies above it).
+    dom: Vec<Key>,
     iters: Vec<LiveIt<'a, P, T>>,
     held: Vec<(Key, &'a mut T)>,
     addrs: BTreeSet<usize>,
@@ -360,12 +370,28 @@ impl<'a, P: SimPrefix, T: WVal> Sess<'a, P, T> {
         chk!(ctx, "C14", fresh, format!("alias:{what}"), "{what} handed out a second live mutable reference to the same entry");
         Ok(())
     }
+    fn take(&mut self, i: usize) -> (TrieViewMut<'a, P, T>, Key) {
+        (self.pool.swap_remove(i), self.dom.swap_remove(i))
+    }
+    /// put a view (back) into the pool; `parent` is the region of the view it was derived from
+    fn put(&mut self, v: TrieViewMut<'a, P, T>, parent: Key) {
+        let p = v.prefix().raw().key();
+        // a sub-view narrows the region; a virtual view above the region keeps it
+        let region = if parent.covers(p) { p } else { parent };
+        self.pool.push(v);
+        self.dom.push(region);
+    }
+    /// (region of view i, does the view's own prefix lie inside its region?)
+    fn region(&self, i: usize) -> (Key, bool) {
+        let p = self.pool[i].prefix().raw().key();
+        (self.dom[i], self.dom[i].covers(p))
+    }
     /// all views / live iterators address pairwise disjoint sub-tries
     fn check_disjoint(&self, ctx: &mut Ctx, after: &str) -> R {
         if !ctx.is("C14") {
             return Ok(());
         }
-        let mut roots: Vec<Key> = self.pool.iter().map(|v| v.prefix().raw().key()).collect();
+        let mut roots: Vec<Key> = self.dom.clone();
         roots.extend(self.iters.iter().map(|i| i.root));
         for i in 0..roots.len() {
             for j in 0..roots.len() {
@@ -380,12 +406,15 @@ impl<'a, P: SimPrefix, T: WVal> Sess<'a, P, T> {
         if self.pool.is_empty() {
             return Ok(());
         }
-        let v = &self.pool[i % self.pool.len()];
+        let i = i % self.pool.len();
+        let v = &self.pool[i];
+        let (region, own) = self.region(i);
         let cap = self.cap;
         let (p, val, _hl, _hr, ents) = ctx.obs("C13", "peek", || (v.prefix().raw().key(), v.value().map(|x| x.snap()), v.has_left(), v.has_right(), view_ents(&v.view(), cap)))?;
-        let e = exp_under(&self.exp, p);
+        let e = exp_under(&self.exp, region);
         chk!(ctx, "C13", ents == e, "peek:entries", "read-only look at mutable view {p} while references are held: sees {:?}, expected {:?}", ents, e);
-        chk!(ctx, "C13", val == self.exp.get(&p).map(|x| x.1), "peek:value", "view {p}.value() = {:?}, expected {:?}", val, self.exp.get(&p));
+        let here = if own { self.exp.get(&p).map(|x| x.1) } else { None };
+        chk!(ctx, "C13", val == here, "peek:value", "view {p}.value() = {:?}, expected {:?}", val, here);
         Ok(())
     }
 }
@@ -509,6 +538,7 @@ fn run_setop_mut<'x, 'y: 'x, P: SimPrefix, T: WVal, Rr: WVal>(
 pub fn run_session<'a, P: SimPrefix, T: WVal>(ctx: &mut Ctx, mut w: Option<&mut World<P>>, self_idx: usize, root: TrieViewMut<'a, P, T>, t0: &Truth, acts: &[MAct]) -> R<(Exp, bool, Vec<usize>)> {
     let mut s: Sess<'a, P, T> = Sess {
         pool: vec![root],
+        dom: vec![Key::ZERO],
         iters: vec![],
         held: vec![],
         addrs: BTreeSet::new(),
@@ -524,7 +554,7 @@ pub fn run_session<'a, P: SimPrefix, T: WVal>(ctx: &mut Ctx, mut w: Option<&mut 
                 if n == 0 {
                     continue;
                 }
-                let v = s.pool.swap_remove(*i as usize % n);
+                let (v, vdom) = s.take(*i as usize % n);
                 let vp = v.prefix().raw().key();
                 let (r, name) = match act {
                     MAct::Left(_) => (ctx.obs("*", "left", || v.left())?, "left"),
@@ -539,9 +569,9 @@ pub fn run_session<'a, P: SimPrefix, T: WVal>(ctx: &mut Ctx, mut w: Option<&mut 
                         let np = nv.prefix().raw().key();
                         // a sub-view never addresses anything outside its parent
                         chk!(ctx, "C14", vp.covers(np) || np.covers(vp), format!("escape:{name}"), "{name}() on mutable view {vp} produced a view at {np}, outside of it");
-                        s.pool.push(nv);
+                        s.put(nv, vdom);
                     }
-                    Err(o) => s.pool.push(o),
+                    Err(o) => s.put(o, vdom),
                 }
                 s.check_disjoint(ctx, name)?;
             }
@@ -549,16 +579,13 @@ pub fn run_session<'a, P: SimPrefix, T: WVal>(ctx: &mut Ctx, mut w: Option<&mut 
                 if n == 0 {
                     continue;
                 }
-                let v = s.pool.swap_remove(*i as usize % n);
-                let here = v.prefix().raw().key();
-                let has_own = s.exp.contains_key(&here);
+                let (v, vdom) = s.take(*i as usize % n);
                 let (l, r) = ctx.obs("*", "split", || v.split())?;
-                let _ = has_own;
                 if let Some(l) = l {
-                    s.pool.push(l);
+                    s.put(l, vdom);
                 }
                 if let Some(r) = r {
-                    s.pool.push(r);
+                    s.put(r, vdom);
                 }
                 ctx.hit("probe.split in mutable session");
                 s.check_disjoint(ctx, "split")?;
@@ -567,11 +594,17 @@ pub fn run_session<'a, P: SimPrefix, T: WVal>(ctx: &mut Ctx, mut w: Option<&mut 
                 if n == 0 {
                     continue;
                 }
+                let (_, own) = s.region(*i as usize % n);
                 let view = &mut s.pool[*i as usize % n];
                 let pre = view.prefix().raw();
                 let had = view.value().map(|x| x.snap());
                 let r = ctx.mutate("view.set", || view.set(T::mk(*v)).map(|o| o.map(|x| x.snap())).map_err(|e| e.snap()))?;
-                let model_had = s.exp.get(&pre.key()).map(|x| x.1);
+                // a virtual view above its region does not address the entry stored at its prefix
+                let model_had = if own { s.exp.get(&pre.key()).map(|x| x.1) } else { None };
+                if !own {
+                    chk!(ctx, "C14", r.is_err(), "escape:view.set", "view({pre}) lies above the sub-trie it was derived from, but set() stored a value there");
+                    continue;
+                }
                 match r {
                     Ok(old) => {
                         chk!(ctx, "C01", old == model_had && old == had, "ret:view.set", "view({pre}).set() returned {:?}, value() before was {:?}, abstract map {:?}", old, had, model_had);
@@ -592,9 +625,14 @@ pub fn run_session<'a, P: SimPrefix, T: WVal>(ctx: &mut Ctx, mut w: Option<&mut 
                 if n == 0 {
                     continue;
                 }
+                let (_, own) = s.region(*i as usize % n);
                 let view = &mut s.pool[*i as usize % n];
                 let pre = view.prefix().raw();
                 let r = ctx.mutate("view.remove", || view.remove().map(|x| x.snap()))?;
+                if !own {
+                    chk!(ctx, "C14", r.is_none(), "escape:view.remove", "view({pre}) lies above the sub-trie it was derived from, but remove() took a value out");
+                    continue;
+                }
                 let model = s.exp.remove(&pre.key()).map(|x| x.1);
                 chk!(ctx, "C01", r == model, "ret:view.remove", "view({pre}).remove() returned {:?}, abstract map {:?}", r, model);
                 if r.is_some() {
@@ -606,6 +644,7 @@ pub fn run_session<'a, P: SimPrefix, T: WVal>(ctx: &mut Ctx, mut w: Option<&mut 
                 if n == 0 {
                     continue;
                 }
+                let (_, own) = s.region(*i as usize % n);
                 let view = &mut s.pool[*i as usize % n];
                 let pre = view.prefix().raw().key();
                 let pv = matches!(act, MAct::PrefixValueMutWrite(..));
@@ -624,7 +663,7 @@ pub fn run_session<'a, P: SimPrefix, T: WVal>(ctx: &mut Ctx, mut w: Option<&mut 
                         })
                     }
                 })?;
-                let model = s.exp.get(&pre).copied();
+                let model = if own { s.exp.get(&pre).copied() } else { None };
                 chk!(ctx, "C13", got.map(|g| g.1) == model.map(|m| m.1) && got.and_then(|g| g.0).map(|r| Some(r) == model.map(|m| m.0)).unwrap_or(true), "mirror:value_mut", "view({pre}).value_mut()/prefix_value_mut() yielded {:?}, read-only twin {:?}", got, model);
                 if got.is_some() {
                     if let Some(x) = s.exp.get_mut(&pre) {
@@ -637,7 +676,7 @@ pub fn run_session<'a, P: SimPrefix, T: WVal>(ctx: &mut Ctx, mut w: Option<&mut 
                     continue;
                 }
                 let idx = *i as usize % n;
-                let vp = s.pool[idx].prefix().raw().key();
+                let vp = s.region(idx).0;
                 let exp = exp_under(&s.exp, vp);
                 let cap = s.cap;
                 let held_addrs = s.addrs.clone();
@@ -672,8 +711,7 @@ pub fn run_session<'a, P: SimPrefix, T: WVal>(ctx: &mut Ctx, mut w: Option<&mut 
                 if n == 0 {
                     continue;
                 }
-                let v = s.pool.swap_remove(*i as usize % n);
-                let root = v.prefix().raw().key();
+                let (v, root) = s.take(*i as usize % n);
                 let exp: Vec<Key> = exp_under(&s.exp, root).iter().map(|e| e.key).collect();
                 let it = ctx.obs("C13", "view.into_iter", || v.into_iter())?;
                 s.iters.push(LiveIt { it, exp, pos: 0, root });
@@ -724,11 +762,36 @@ pub fn run_session<'a, P: SimPrefix, T: WVal>(ctx: &mut Ctx, mut w: Option<&mut 
                 }
                 s.peek(ctx, *i as usize)?;
             }
+            MAct::Churn { i, rounds, v0 } => {
+                if n == 0 {
+                    continue;
+                }
+                // prefer a view that currently holds a value at its root
+                let start = *i as usize % n;
+                let idx = (0..n).map(|d| (start + d) % n).find(|j| s.pool[*j].value().is_some() && s.region(*j).1);
+                let Some(idx) = idx else { continue };
+                let view = &mut s.pool[idx];
+                let key = view.prefix().raw().key();
+                let (rounds, v0) = (*rounds, *v0);
+                let ok = ctx.mutate("view.remove/set churn", || {
+                    let mut ok = true;
+                    for r in 0..rounds {
+                        ok &= view.remove().is_some();
+                        ok &= matches!(view.set(T::mk(v0 + r as u64)), Ok(None));
+                    }
+                    ok
+                })?;
+                chk!(ctx, "C01", ok, "ret:view.churn", "remove()/set() cycles on view {key} returned unexpected results");
+                if let Some(x) = s.exp.get_mut(&key) {
+                    x.1 = T::norm(v0 + rounds as u64 - 1);
+                }
+                ctx.rare("probe.remove/set churn through a mutable view");
+            }
             MAct::Forget(i) => {
                 if n == 0 {
                     continue;
                 }
-                std::mem::forget(s.pool.swap_remove(*i as usize % n));
+                std::mem::forget(s.take(*i as usize % n).0);
                 ctx.stats.hit("fault.forget fired");
             }
             MAct::SetOpSame { i, j, op, order, v0 } => {
@@ -740,10 +803,9 @@ pub fn run_session<'a, P: SimPrefix, T: WVal>(ctx: &mut Ctx, mut w: Option<&mut 
                     j = (j + 1) % n;
                 }
                 let (hi, lo) = (i.max(j), i.min(j));
-                let x = s.pool.swap_remove(hi);
-                let y = s.pool.swap_remove(lo);
-                let (mut a, b) = if i > j { (x, y) } else { (y, x) };
-                let (pa, pb) = (a.prefix().raw().key(), b.prefix().raw().key());
+                let (x, dx) = s.take(hi);
+                let (y, dy) = s.take(lo);
+                let ((mut a, pa), (b, pb)) = if i > j { ((x, dx), (y, dy)) } else { ((y, dy), (x, dx)) };
                 let (ea, eb) = (exp_under(&s.exp, pa), exp_under(&s.exp, pb));
                 ctx.rare("probe.setop_mut between two views of one map in a session");
                 let sref = &s;
@@ -758,9 +820,9 @@ pub fn run_session<'a, P: SimPrefix, T: WVal>(ctx: &mut Ctx, mut w: Option<&mut 
                     }
                 }
                 // views come back into the pool
-                s.pool.push(a);
+                s.put(a, pa);
                 if let Some(b) = back {
-                    s.pool.push(b);
+                    s.put(b, pb);
                 }
                 s.check_disjoint(ctx, "setop_mut")?;
             }
@@ -774,16 +836,15 @@ pub fn run_session<'a, P: SimPrefix, T: WVal>(ctx: &mut Ctx, mut w: Option<&mut 
                     continue;
                 }
                 let idx = *i as usize % n;
-                let mut a = s.pool.swap_remove(idx);
-                let pa = a.prefix().raw().key();
+                let (mut a, pa) = s.take(idx);
                 let ea = exp_under(&s.exp, pa);
                 let sref = &s;
                 let wr = match w.opnd(*other) {
                     Opnd::M(o) => {
                         let mw = &mut w.maps[o as usize];
                         let tb = truth_of(&mw.real.verif_snapshot());
-                        let b = ctx.obs("*", "navigate_mut", || navigate_mut(mw.real.view_mut(), nav))?;
-                        let eb: Vec<Ent> = under(&tb.ents, b.prefix().raw().key()).into_iter().cloned().collect();
+                        let (b, rb) = ctx.obs("*", "navigate_mut", || navigate_mut_region(mw.real.view_mut(), nav))?;
+                        let eb: Vec<Ent> = under(&tb.ents, rb).into_iter().cloned().collect();
                         let wr = if op % 4 < 2 {
                             run_setop_mut(ctx, &mut a, Some(b), None, *op, *order, *v0, &ea, &eb, |c| sref.peek(c, 0))?
                         } else {
@@ -799,8 +860,8 @@ pub fn run_session<'a, P: SimPrefix, T: WVal>(ctx: &mut Ctx, mut w: Option<&mut 
                     Opnd::S(o) => {
                         let sw = &mut w.sets[o as usize];
                         let tb = truth_of(&sw.real.verif_snapshot());
-                        let b = ctx.obs("*", "navigate_mut", || navigate_mut(sw.real.view_mut(), nav))?;
-                        let eb: Vec<Ent> = under(&tb.ents, b.prefix().raw().key()).into_iter().cloned().collect();
+                        let (b, rb) = ctx.obs("*", "navigate_mut", || navigate_mut_region(sw.real.view_mut(), nav))?;
+                        let eb: Vec<Ent> = under(&tb.ents, rb).into_iter().cloned().collect();
                         if op % 4 < 2 {
                             run_setop_mut(ctx, &mut a, Some(b), None, *op, *order, *v0, &ea, &eb, |c| sref.peek(c, 0))?
                         } else {
@@ -816,7 +877,7 @@ pub fn run_session<'a, P: SimPrefix, T: WVal>(ctx: &mut Ctx, mut w: Option<&mut 
                 if !touched_others.contains(&oi) {
                     touched_others.push(oi);
                 }
-                s.pool.push(a);
+                s.put(a, pa);
             }
         }
     }
